@@ -41,4 +41,79 @@ theorem docKeys_stable : ∀ e ∈ deriveExt Tea.Doc.sequences,
     · exact key _ docKeysOk_2 h
     · exact key _ docKeysOk_3 h
 
+/-! ### alt + character over the documented table -/
+
+/-- the shape of the keys of a table that decides which `ESC c …` are comparable with a key: no
+empty key, no key `ESC` alone, and every key `ESC c …` has `c` a control byte, space, DEL, `[`
+or `O` -/
+def escSecondB (T : Table) : Bool :=
+  T.all fun e => match e.seq with
+    | [] => false
+    | [c] => c != 0x1b
+    | 0x1b :: c :: _ => decide (c ≤ 32) || c == 127 || c == 0x5b || c == 0x4f
+    | _ => true
+
+theorem doc_escSecond : escSecondB (deriveExt Tea.Doc.sequences) = true := by decide +kernel
+
+theorem incomparable_esc_of_second {T : Table} (hT : escSecondB T = true) {c : Nat}
+    (h32 : 32 < c) (h127 : c ≠ 127) (h5 : c ≠ 0x5b) (hO : c ≠ 0x4f) (tl : Bytes) :
+    incomparableB T (0x1b :: c :: tl) = true := by
+  unfold incomparableB
+  rw [List.all_eq_true]
+  intro e he
+  have h := (List.all_eq_true.1 hT) e he
+  simp only [Bool.and_eq_true, Bool.not_eq_true', isPrefix_eq_false_iff]
+  cases hs : e.seq with
+  | nil => rw [hs] at h; simp at h
+  | cons a as =>
+    rw [hs] at h
+    by_cases ha : a = 0x1b
+    · subst ha
+      cases as with
+      | nil => simp at h
+      | cons b bs =>
+        have hb : b ≠ c := by
+          simp only [Bool.or_eq_true, decide_eq_true_eq, beq_iff_eq] at h
+          omega
+        constructor
+        · intro hp
+          exact hb (List.cons_prefix_cons.1 (List.cons_prefix_cons.1 hp).2).1
+        · intro hp
+          exact hb (List.cons_prefix_cons.1 (List.cons_prefix_cons.1 hp).2).1.symm
+    · constructor
+      · intro hp; exact ha (List.cons_prefix_cons.1 hp).1
+      · intro hp; exact ha (List.cons_prefix_cons.1 hp).1.symm
+
+/-- the first byte of the encoding of `r` is `r` itself (ASCII) or at least 0xC0 -/
+theorem encodeRune_head_cases (r : Nat) :
+    ∃ c tl, Utf8.encodeRune r = c :: tl ∧ ((c = r ∧ r < 0x80) ∨ 0xc0 ≤ c) := by
+  unfold Utf8.encodeRune
+  by_cases h1 : r < 0x80
+  · rw [if_pos h1]; exact ⟨_, _, rfl, Or.inl ⟨rfl, h1⟩⟩
+  · rw [if_neg h1]
+    by_cases h2 : r < 0x800
+    · rw [if_pos h2]; exact ⟨_, _, rfl, Or.inr (by omega)⟩
+    · rw [if_neg h2]
+      split
+      · exact ⟨_, _, rfl, Or.inr (by omega)⟩
+      · split
+        · exact ⟨_, _, rfl, Or.inr (by omega)⟩
+        · exact ⟨_, _, rfl, Or.inr (by omega)⟩
+
+/-- over the documented table, alt + ANY printable character other than `[` and `O` satisfies
+the side condition of the grammar -/
+theorem docAltRune_ok (r : Nat) (hp : printableScalar r = true) (h5 : r ≠ 0x5b) (hO : r ≠ 0x4f) :
+    (Ev.altRune r).ok (deriveExt Tea.Doc.sequences) = true := by
+  have hp' := hp
+  simp only [printableScalar, Bool.and_eq_true, decide_eq_true_eq, bne_iff_ne, ne_eq] at hp'
+  obtain ⟨⟨⟨_, h32⟩, h127⟩, _⟩ := hp'
+  obtain ⟨c, tl, hc, hcases⟩ := encodeRune_head_cases r
+  simp only [Ev.ok, Bool.and_eq_true, bne_iff_ne, ne_eq]
+  refine ⟨⟨hp, h5⟩, ?_⟩
+  rw [hc]
+  rcases hcases with ⟨h, _⟩ | h
+  · subst h
+    exact incomparable_esc_of_second doc_escSecond h32 h127 h5 hO tl
+  · exact incomparable_esc_of_second doc_escSecond (by omega) (by omega) (by omega) (by omega) tl
+
 end Tea.Input
